@@ -161,6 +161,9 @@ func rulesC02(c *Ctx) {
 	R.Rule("R9", "a mint quote becomes PAID only behind stored state == UNPAID and a settled invoice of that quote (shared with C03.R2): a PENDING or ISSUED quote is never re-opened by a poll", 4)
 	c.vocabProblems("R1")
 	c.checkAtomicMultiRow("R8", roleMarkSpent)
+	R.Rule("R15", "the spent / pending look-ups behind the melt and swap guards see every input: the list readers bind every value of their parameter and return every row (shared with C01.R10; an input that is never looked up is burned twice)", 2)
+	c.readersReturnEveryRow("R15", "GetProofsUsed", "GetPendingProofs")
+	c.ruleSQLAgreement("R15", map[string]bool{"proofs": true, "pending_proofs": true})
 	c.ruleQuotePaidWrite("R9")
 
 	swap := c.op("R1", "/v1/swap")
